@@ -1,9 +1,126 @@
 import NxProofs.RmcClient
+/-!
+# C10 — each remote call gets its own response, whatever the interleaving
+
+Model: `NxModel/Nex/RmcClient.lean` — `step` mirrors the atomic sections of `RMCClient.request`, the
+`start` loop and `cleanup` (shared `requests` / `responses` dicts, 32-bit wrapping call id counter);
+`CallSpec.step` is the specification: every outstanding call keeps *its own* slot holding the first
+response that carried its call id since it registered; a resumed call returns that response, or raises
+"closed" if the connection closed first. Ops are arbitrary interleavings of calls, received responses
+(any ids: unknown, duplicate), received requests, peer EOF, local cleanup/close/disconnect, and task
+resumptions — `List Op` covers every schedule, every crash point and every input at once.
+
+Hypothesis H-ids (`distinctLive`): when a call registers, its fresh id is not the id of a call still
+outstanding. It is forced: the counter wraps at 2^32 and `self.requests[call_id] = event` overwrites
+(see `wrap_counterexample`). It holds whenever fewer than 2^32 − 1 calls are made on the connection
+(`few_calls_distinct`).
+Trusted runtime: a task whose `anyio.Event` is set is eventually resumed (`wake`), and never otherwise.
+Statements only; proofs in `NxProofs/RmcClient.lean`.
+-/
 namespace Nx.C10
 open Nx Nx.Rmc Nx.RmcClient
 
-theorem dup_unknown_inert_raw (s : State) (m : Msg) (h : dlookup m.callId s.requests = none) :
-    step s (.recvResponse m) = (s, [.warnInvalidCallId m.callId]) :=
-  step_unknown_response s m h
+/-- every request id, every completion (returned body / RMC error code / "closed" / `None`) and every
+    readiness of the implementation equals the specification's, on every op sequence with distinct live ids
+    (`n` = initial value of the call id counter; the library starts at 1) -/
+theorem C10_refines_spec (n : Nat) (ops : List Op) (hd : distinctLive { init with nextId := n } ops = true) :
+    (run { init with nextId := n } ops).2.filter Out.observable
+      = (CallSpec.run { CallSpec.init with nextId := n } ops).2 :=
+  (run_refines (rel_init n) ops hd).2
+
+/-- H-ids is satisfiable and holds for every run with fewer than 2^32 − 1 calls -/
+theorem few_calls_distinct (ops : List Op) (h : nCalls ops < 4294967295) : distinctLive init ops = true :=
+  distinctLive_of_small init ops (by simp [init]) (by simp [init]; omega)
+
+/-- no cross-talk: a call that completes has either been told "closed", or was response-less, or returns
+    exactly the outcome (body, or error code) of a received response whose call id is the id its own request carried -/
+theorem no_cross_talk (ops : List Op) (hd : distinctLive init ops = true) (t : Nat) (o : Outcome)
+    (h : Out.done t o ∈ (run init ops).2) :
+    o = .closed ∨ o = .none ∨
+      ∃ id m, Out.sent t id ∈ (run init ops).2 ∧ Op.recvResponse m ∈ ops ∧ m.callId = id ∧ o = outcomeOf m := by
+  have href := (run_refines (rel_init 1) ops hd).2
+  have hspec : Out.done t o ∈ (CallSpec.run CallSpec.init ops).2 := by
+    have : Out.done t o ∈ obs (run init ops).2 := mem_obs.mpr ⟨h, rfl⟩
+    exact href ▸ this
+  rcases spec_run_hist CallSpec.init ops [] [] (by intro c hc; cases hc) t o hspec with e | e | ⟨id, m, s1, s2, s3, s4⟩
+  · exact .inl e
+  · exact .inr (.inl e)
+  · refine .inr (.inr ⟨id, m, ?_, by simpa using s2, s3, s4⟩)
+    have : Out.sent t id ∈ obs (run init ops).2 := by
+      have h' : Out.sent t id ∈ (CallSpec.run CallSpec.init ops).2 := by simpa using s1
+      exact href ▸ h'
+    exact (mem_obs.mp this).1
+
+/-- in particular `responses.pop(call_id)` never raises `KeyError` -/
+theorem no_key_error (ops : List Op) (hd : distinctLive init ops = true) (t : Nat) :
+    Out.done t .keyError ∉ (run init ops).2 := by
+  intro h
+  rcases no_cross_talk ops hd t _ h with e | e | ⟨_, m, _, _, _, e⟩
+  · cases e
+  · cases e
+  · unfold outcomeOf at e; split at e <;> cases e
+
+/-- the first response wins: once a call's slot holds a response, a later one with the same id does not replace it -/
+theorem first_response_wins (m m' : Msg) (c : SCall) (h : c.id = m.callId) : upd m' (upd m c) = upd m c :=
+  Nx.RmcClient.first_response_wins m m' c h
+
+/-- unsolicited and duplicate responses are inert: in any reachable open state a response whose id is not the
+    id of an outstanding unanswered call (never allocated, already answered, already completed) changes
+    nothing at all — neither the implementation state nor any call's slot — and is dropped with the warning -/
+theorem dup_unknown_inert (ops : List Op) (hd : distinctLive init ops = true) (m : Msg)
+    (hopen : (run init ops).1.closed = false)
+    (hno : ∀ c ∈ (CallSpec.run CallSpec.init ops).1.calls, c.id = m.callId → c.resp ≠ none) :
+    step (run init ops).1 (.recvResponse m) = ((run init ops).1, [.warnInvalidCallId m.callId]) ∧
+    (CallSpec.step (CallSpec.run CallSpec.init ops).1 (.recvResponse m)).1 = (CallSpec.run CallSpec.init ops).1 :=
+  response_inert (run_refines (rel_init 1) ops hd).1 hopen m hno
+
+/-- a call whose response has arrived (and whose connection is still open) resumes with exactly that response -/
+theorem answered_call_returns_its_response (ops : List Op) (hd : distinctLive init ops = true)
+    (hopen : (run init ops).1.closed = false) (c : SCall) (hc : c ∈ (CallSpec.run CallSpec.init ops).1.calls)
+    (m : Msg) (hr : c.resp = some m) :
+    (step (run init ops).1 (.wake c.task)).2 = [.done c.task (outcomeOf m)] :=
+  wake_answered (run_refines (rel_init 1) ops hd).1 hopen c hc m hr
+
+/-- closure at any moment (peer EOF or local cleanup/close/disconnect), followed by anything: the connection
+    stays closed, every still-suspended call has its event set (none is left pending) and resuming it raises
+    "closed" — it never reads a response, its own or another's -/
+theorem close_wakes_all (ops : List Op) (hd : distinctLive init ops = true) (closeOp : Op)
+    (hclose : closeOp = .eof ∨ closeOp = .cleanup) (later : List Op) :
+    let s := (run (step (run init ops).1 closeOp).1 later).1
+    s.closed = true ∧ ∀ p ∈ s.frames, p.1 ∈ s.fired ∧ (step s (.wake p.1)).2 = [.done p.1 .closed] := by
+  intro s
+  have hR := (run_refines (rel_init 1) ops hd).1
+  have hf : FreshId (run init ops).1 closeOp := by rcases hclose with rfl | rfl <;> trivial
+  have hR1 := (step_refines hR closeOp hf).1
+  have hc1 : (step (run init ops).1 closeOp).1.closed = true := by
+    rcases hclose with rfl | rfl <;> simp only [step, doCleanup] <;> split <;> simp_all
+  obtain ⟨hR2, hc2, _⟩ := run_closed hR1 hc1 later
+  exact ⟨hc2, fun p hp => closed_frames_ready hR2 hc2 p hp⟩
+
+/-- a call made on a closed connection raises "closed" without sending anything -/
+theorem call_after_close (s : State) (h : s.closed = true) (nr : Bool) :
+    (step s (.call nr)).2 = [.done s.nextTask .closed] := by
+  simp [step, h]
+
+/-- without H-ids the property fails (2^32 calls while one is outstanding): the second call with id 5 overwrites
+    the first one's event; the response wakes only the newer call and the older one hangs -/
+theorem wrap_counterexample :
+    let s0 : State := { init with nextId := 5, nextTask := 1, requests := [(5, 0)], frames := [(0, 5)] }
+    let r : Msg := { mode := 1, protocol := 10, method := some 1, callId := 5, error := -1, body := [7] }
+    distinctLive s0 [.call false] = false ∧
+    (run s0 [.call false, .recvResponse r, .wake 1, .wake 0]).2
+      = [.sent 1 5, .set 1, .done 1 (.body [7]), .notReady 0] := by
+  decide
+
+/-! non-vacuity -/
+example : distinctLive init [.call false, .call false, .recvResponse { mode := 1, protocol := 10, method := some 1, callId := 2, error := -1, body := [1] },
+    .wake 1, .cleanup, .wake 0] = true := by decide
+example : (run init [.call false, .call false, .recvResponse { mode := 1, protocol := 10, method := some 1, callId := 2, error := -1, body := [1] },
+    .recvResponse { mode := 1, protocol := 10, method := some 1, callId := 2, error := -1, body := [9] },
+    .recvResponse { mode := 1, protocol := 10, method := none, callId := 1, error := 0x80010005, body := [] },
+    .wake 1, .wake 0]).2
+    = [.sent 0 1, .sent 1 2, .set 1, .warnInvalidCallId 2, .set 0, .done 1 (.body [1]), .done 0 (.rmcError 0x80010005)] := by decide
+example : nCalls [.call false, .eof, .call true] < 4294967295 := by decide
+example : (run init [.call false, .eof, .wake 0]).2 = [.sent 0 1, .closing [0], .done 0 .closed] := by decide
 
 end Nx.C10
